@@ -87,3 +87,6 @@ Example C14_tangles_refused :
 Proof.
   intros text H; repeat (destruct H as [<-|H]; [vm_compute; split; reflexivity|]); destruct H.
 Qed.
+
+(* Every remaining statement of this file, so that none is left unaudited. *)
+Print Assumptions C14_keyword_table_ok.
